@@ -16,64 +16,66 @@
 EXTENDS Integers, FiniteSets, Sequences, TLC
 
 CONSTANTS Capacity, Getters, Rounds, HeartbeatWhenAvailable,
+          M_HeartbeatLives,   \* the heartbeat goroutine, once started by the first slow-path entry (sync.Once), runs for the life of the pool
           RecordGate    \* TRUE only in the trap configuration: keep the step history (it makes every path a distinct state)
 
-VARIABLES inUse, waiters, lock, wset, pc, left, hb, gate
-vars == <<inUse, waiters, lock, wset, pc, left, hb, gate>>
+VARIABLES inUse, waiters, lock, wset, pc, left, hb, hbg, gate
+vars == <<inUse, waiters, lock, wset, pc, left, hb, hbg, gate>>
 \* pc[g]: "idle" | "inc" | "dec" | "winc" | "lock" | "check" | "wait" | "woken" | "unlock" | "hold" | "bdec" | "bcast" | "done"
 \* hb: history -- was the last lost wake-up window entered (for the trap property)
 \* gate: history -- sequence of protocol steps (exported as a schedule for the gated replay)
 
 Init == /\ inUse = 0 /\ waiters = 0 /\ lock = "none" /\ wset = {}
         /\ pc = [g \in Getters |-> "idle"] /\ left = [g \in Getters |-> Rounds]
-        /\ hb = FALSE /\ gate = <<>>
+        /\ hb = FALSE /\ hbg = "off" /\ gate = <<>>
 
 Avail == inUse < Capacity
 Rec(g, x) == IF RecordGate THEN Append(g, x) ELSE g
 
 Start(g) == /\ pc[g] = "idle" /\ left[g] > 0
             /\ pc' = [pc EXCEPT ![g] = "inc"]
-            /\ UNCHANGED <<inUse, waiters, lock, wset, left, hb, gate>>
+            /\ UNCHANGED <<inUse, waiters, lock, wset, left, hb, hbg, gate>>
 
 \* inUse.Inc(): granted iff the new value <= capacity
 Inc(g) == /\ pc[g] = "inc"
           /\ inUse' = inUse + 1
           /\ pc' = [pc EXCEPT ![g] = IF inUse + 1 <= Capacity THEN "hold" ELSE "dec"]
-          /\ UNCHANGED <<waiters, lock, wset, left, hb, gate>>
+          /\ UNCHANGED <<waiters, lock, wset, left, hb, hbg, gate>>
 
 Dec(g) == /\ pc[g] = "dec" /\ inUse' = inUse - 1 /\ pc' = [pc EXCEPT ![g] = "winc"]
-          /\ UNCHANGED <<waiters, lock, wset, left, hb, gate>>
+          /\ UNCHANGED <<waiters, lock, wset, left, hb, hbg, gate>>
 
 WInc(g) == /\ pc[g] = "winc" /\ waiters' = waiters + 1 /\ pc' = [pc EXCEPT ![g] = "lock"]
+           /\ hbg' = IF hbg = "off" THEN "on" ELSE hbg              \* runHeartbeatOnce.Do(go wakeupWaiters): only the first time
            /\ UNCHANGED <<inUse, lock, wset, left, hb, gate>>
 
 Lock(g) == /\ pc[g] = "lock" /\ lock = "none" /\ lock' = g /\ pc' = [pc EXCEPT ![g] = "check"]
-           /\ UNCHANGED <<inUse, waiters, wset, left, hb, gate>>
+           /\ UNCHANGED <<inUse, waiters, wset, left, hb, hbg, gate>>
 
 \* if !eventsAvailable() { Wait() }   -- the evaluation and the registration are two steps
 Check(g) == /\ pc[g] = "check"
             /\ pc' = [pc EXCEPT ![g] = IF Avail THEN "unlock" ELSE "wait"]
             /\ gate' = IF Avail THEN gate ELSE Rec(gate, <<"checked_unavailable", g>>)
-            /\ UNCHANGED <<inUse, waiters, lock, wset, left, hb>>
+            /\ UNCHANGED <<inUse, waiters, lock, wset, left, hb, hbg>>
 
 \* Wait(): add to the notify list and unlock, atomically
 Wait(g) == /\ pc[g] = "wait"
            /\ wset' = wset \cup {g} /\ lock' = "none"
            /\ pc' = [pc EXCEPT ![g] = "sleep"]
            /\ gate' = Rec(gate, <<"wait_registered", g>>)
-           /\ UNCHANGED <<inUse, waiters, left, hb>>
+           /\ UNCHANGED <<inUse, waiters, left, hb, hbg>>
 
 \* woken by a Broadcast: re-acquire the lock
 Relock(g) == /\ pc[g] = "woken" /\ lock = "none" /\ lock' = g /\ pc' = [pc EXCEPT ![g] = "unlock"]
-             /\ UNCHANGED <<inUse, waiters, wset, left, hb, gate>>
+             /\ UNCHANGED <<inUse, waiters, wset, left, hb, hbg, gate>>
 
 Unlock(g) == /\ pc[g] = "unlock" /\ lock' = "none" /\ waiters' = waiters - 1 /\ pc' = [pc EXCEPT ![g] = "inc"]
-             /\ UNCHANGED <<inUse, wset, left, hb, gate>>
+             /\ UNCHANGED <<inUse, wset, left, hb, hbg, gate>>
 
 \* the holder finishes with the event: back() = Dec, then Broadcast (no lock)
 BackDec(g) == /\ pc[g] = "hold" /\ inUse' = inUse - 1 /\ pc' = [pc EXCEPT ![g] = "bcast"]
               /\ gate' = Rec(gate, <<"back_dec", g>>)
-              /\ UNCHANGED <<waiters, lock, wset, left, hb>>
+              /\ UNCHANGED <<waiters, lock, wset, left, hb, hbg>>
 
 WakeAll(p) == [g \in Getters |-> IF g \in wset THEN "woken" ELSE p[g]]
 
@@ -85,19 +87,24 @@ BackBroadcast(g) ==
   \* a getter that evaluated "unavailable" but is not yet on the notify list misses this broadcast
   /\ hb' = (RecordGate /\ (hb \/ \E h \in Getters : pc[h] = "wait"))
   /\ gate' = Rec(gate, <<"back_broadcast", g>>)
-  /\ UNCHANGED <<inUse, waiters, lock>>
+  /\ UNCHANGED <<inUse, waiters, lock, hbg>>
+
+\* mutant: the heartbeat goroutine returns at a tick at which nobody waits; sync.Once never starts it again
+HeartbeatExit == /\ ~M_HeartbeatLives /\ hbg = "on" /\ waiters = 0 /\ hbg' = "dead"
+                 /\ UNCHANGED <<inUse, waiters, lock, wset, pc, left, hb, gate>>
 
 Heartbeat ==
+  /\ hbg = "on"
   /\ waiters > 0
   /\ (IF HeartbeatWhenAvailable THEN Avail ELSE ~Avail)
   /\ wset # {}
   /\ pc' = WakeAll(pc) /\ wset' = {}
   /\ gate' = Rec(gate, <<"heartbeat", 0>>)
-  /\ UNCHANGED <<inUse, waiters, lock, left, hb>>
+  /\ UNCHANGED <<inUse, waiters, lock, left, hb, hbg>>
 
 GStep(g) == Start(g) \/ Inc(g) \/ Dec(g) \/ WInc(g) \/ Lock(g) \/ Check(g) \/ Wait(g) \/ Relock(g) \/ Unlock(g)
             \/ BackDec(g) \/ BackBroadcast(g)
-Next == (\E g \in Getters : GStep(g)) \/ Heartbeat
+Next == (\E g \in Getters : GStep(g)) \/ Heartbeat \/ HeartbeatExit
 Spec == Init /\ [][Next]_vars
 FairSpec == Spec /\ \A g \in Getters : WF_vars(GStep(g)) /\ WF_vars(Heartbeat)
 
@@ -111,11 +118,11 @@ MutexOK == lock = "none" \/ pc[lock] \in {"check", "wait", "unlock"}
 \* C04 safety form: a state in which somebody sleeps on the condition although nobody can ever wake it
 Wedged == /\ wset # {}
           /\ \A g \in Getters : pc[g] \in {"sleep", "done"} \/ (pc[g] = "idle" /\ left[g] = 0)
-          /\ ~(waiters > 0 /\ (IF HeartbeatWhenAvailable THEN Avail ELSE ~Avail))
+          /\ ~(hbg = "on" /\ waiters > 0 /\ (IF HeartbeatWhenAvailable THEN Avail ELSE ~Avail))
 NoWedge == ~Wedged
 \* C04 liveness: every getter finishes all its rounds (each get is eventually granted)
 AllDone == <>(\A g \in Getters : pc[g] = "done")
 \* trap: the negation of "the lost wake-up window was entered" -- its counterexample is the schedule for the gated replay
 NeverLostWakeup == ~hb
-VIEW_NoHistory == <<inUse, waiters, lock, wset, pc, left>>
+VIEW_NoHistory == <<inUse, waiters, lock, wset, pc, left, hbg>>
 =============================================================================
